@@ -52,7 +52,10 @@ def is_nontrivial(ops):
 FNS = ["field_call", "srf_call", "krige_call", "condsrf_call", "transform", "set_condition",
        "extdrift", "mesh_call", "krige_fit", "model_ctor",
        "vario_estimate", "vario_axis", "standard_bins", "fit_variogram", "normalizer",
-       "mean_norm_trend", "array_transform", "model_funcs"]
+       "mean_norm_trend", "array_transform", "model_funcs", "rejected_call"]
+REJECTED = ["vario_field_shape", "vario_dir_dim", "vario_mask_shape", "krige_cond_len",
+            "extdrift_len", "srf_pos_dim", "fit_len", "ctor_anis", "set_condition_len",
+            "mnt_shape", "condsrf_pos_dim", "vario_axis_mask", "fit_bad_sill", "krige_bad_err"]
 TRANSFORMS = ["binary", "discrete", "boxcox", "zinnharvey", "normal_force_moments",
               "normal_to_lognormal", "normal_to_uniform", "normal_to_arcsin", "normal_to_uquad",
               "function"]
@@ -291,6 +294,8 @@ class Machine:
             op["norm"] = rng.choice([None, None, "LogNormal", "YeoJohnson"])
         elif fn == "array_transform":
             op["method"] = rng.choice(ARRAY_TRANSFORMS)
+        elif fn == "rejected_call":
+            op["what"] = rng.choice(REJECTED)
         elif fn == "model_funcs":
             op["method"] = rng.choice(["isometrize", "anisometrize", "variogram", "covariance",
                                        "cov_spatial", "vario_spatial", "cov_nugget",
@@ -413,8 +418,12 @@ class Machine:
             kw["function"] = lambda x: np.asarray(x) * 2.0 + 1.0
         if method == "discrete":
             kw["store"] = None
-            kw = {"values": [-1.0, 0.5, 2.0],
-                  "thresholds": rs.choice(["arithmetic", "equal", [-0.3, 0.8]])}
+            vals = rs.choice([[-1.0, 0.5, 2.0], [2.0, -1.0, 0.5], [0.5, 2.0, -1.0]])
+            thr = rs.choice(["arithmetic", "arithmetic", "equal", "given"])
+            if thr == "given":
+                thr = self.alloc("thresholds", rs.choice([[-0.3, 0.8], [0.8, -0.3]]),
+                                 op["layout"], site)
+            kw = {"values": self.alloc("values", vals, op["layout"], site), "thresholds": thr}
         if method == "binary":
             kw = {"divide": rs.choice([None, 0.2])}
         if method == "boxcox":
@@ -745,12 +754,131 @@ class Machine:
         data = self.alloc("field", self._vals(rs, (op["n"] + 2,), 0.5, 3.0), op["layout"], site)
         kw = {}
         if op["method"] == "array_discrete":
-            kw = {"values": self.alloc("values", [-1.0, 0.5, 2.0], op["layout"], site),
-                  "thresholds": rs.choice(["arithmetic", "equal"])}
+            # class values in no particular order; explicit thresholds are a caller array too
+            vals = rs.choice([[-1.0, 0.5, 2.0], [2.0, -1.0, 0.5], [0.5, 2.0, -1.0]])
+            thr = rs.choice(["arithmetic", "arithmetic", "equal", "given"])
+            if thr == "given":
+                thr = self.alloc("thresholds", rs.choice([[0.9, 1.8], [1.8, 0.9]]),
+                                 op["layout"], site)
+            kw = {"values": self.alloc("values", vals, op["layout"], site), "thresholds": thr}
         if op["method"] == "array_boxcox":
             kw = {"lmbda": 0.5, "shift": 1.0}
-        res = fn(data, **kw)
+        try:
+            res = fn(data, **kw)
+        except ValueError:
+            # e.g. thresholds not ascending: refused, the ledger is still checked
+            self.ctx.probe("array_transform_refused")
+            return
         self.track(res, "returned:" + op["method"], site, "result")
+
+    def _c_rejected_call(self, op, rs, site):
+        """A call that the library refuses (inconsistent arguments): whatever it did to the
+        caller's arrays before raising counts just as much as in a successful call."""
+        w = op["what"]
+        lay = op["layout"]
+        d = self.dim
+        n = op["n"] + 3
+        geo = bool(self.cfg.get("geo"))
+        A = lambda role, vals: self.alloc(role, vals, lay, site)
+        model = cm.build_model(self.cfg["model"])
+        # how a call is refused is not an aliasing matter (lists where arrays are documented
+        # stumble with AttributeError): only the ledger counts here
+        refused = (ValueError, TypeError, IndexError, RuntimeError, AttributeError, KeyError,
+                   np.linalg.LinAlgError)
+        try:
+            if w in ("vario_field_shape", "vario_dir_dim", "vario_mask_shape"):
+                if geo:
+                    raise Inapplicable("cartesian example")
+                pos = A("pos", self._vals(rs, (d, n), -3, 3))
+                m = n + 1 if w == "vario_field_shape" else n
+                field = A("field", self._vals(rs, (m,), 0.5, 3.0))
+                kw = {"bin_edges": A("bin_edges", np.linspace(0.0, 5.0, 5))}
+                if d > 1:
+                    cols = d + 1 if w == "vario_dir_dim" else d
+                    kw["direction"] = A("direction", self._vals(rs, (2, cols), 0.5, 2.0))
+                elif w == "vario_dir_dim":
+                    raise Inapplicable("needs dim > 1")
+                mask = np.zeros(n + 2 if w == "vario_mask_shape" else m, dtype=bool)
+                mask[1] = True
+                self.track(mask, "mask", site, "caller")
+                kw["mask"] = mask
+                kw["mean"] = 1.0
+                kw["trend"] = cm.make_fn("lin", d)
+                gs.vario_estimate(pos, field, **kw)
+            elif w == "vario_axis_mask":
+                f = self._vals(rs, (4, 5), 0.5, 3.0)
+                f[0, 0] = np.nan
+                field = A("field", f)
+                mask = np.zeros((5, 4), dtype=bool)  # transposed: does not fit
+                self.track(mask, "mask", site, "caller")
+                gs.vario_estimate_axis(np.ma.array(field if isinstance(field, np.ndarray)
+                                                   else f, mask=mask.T.copy()), "y",
+                                       no_data=rs.choice([np.nan, 1.0]))
+                gs.vario_estimate_axis(field, "z")   # no such axis in 2-d
+            elif w in ("krige_cond_len", "krige_bad_err"):
+                cpos = A("cond_pos", self._vals(rs, (d, n), -3, 3))
+                short = w == "krige_cond_len"
+                cval = A("cond_val", self._vals(rs, (n - 1 if short else n,), 0.5, 3.0))
+                cerr = A("cond_err", self._vals(rs, (n if short else n + 2,), 0.0, 0.1))
+                gs.krige.Ordinary(model, cpos, cval, cond_err=cerr, exact=False,
+                                  trend=cm.make_fn("lin", d),
+                                  normalizer=gs.normalizer.LogNormal())
+            elif w == "extdrift_len":
+                if geo:
+                    raise Inapplicable("cartesian example")
+                cpos = A("cond_pos", self._vals(rs, (d, 5), -3, 3))
+                cval = A("cond_val", self._vals(rs, (5,), 0.5, 3.0))
+                cdr = A("ext_drift", self._vals(rs, (5,), -1, 1))
+                kr = gs.krige.ExtDrift(model, cpos, cval, cdr)
+                pos = A("pos", self._vals(rs, (d, n), -3, 3))
+                tdr = A("ext_drift", self._vals(rs, (n + 1,), -1, 1))
+                kr(pos, ext_drift=tdr)
+            elif w in ("srf_pos_dim", "condsrf_pos_dim"):
+                obj = self.srf if w == "srf_pos_dim" else self.cond
+                pos = A("pos", self._vals(rs, (d + 1, n), -3, 3))
+                obj(pos, store=False)
+            elif w in ("fit_len", "fit_bad_sill"):
+                x = A("x_data", np.linspace(0.5, 8.0, 8))
+                y = A("y_data", self._vals(rs, (7 if w == "fit_len" else 8,), 0.2, 1.0))
+                wts = A("weights", self._vals(rs, (8,), 0.5, 1.0))
+                kw = {"weights": np.array(wts)}
+                if w == "fit_bad_sill":
+                    kw["sill"] = -1.0
+                    kw["nugget"] = 0.5
+                model.fit_variogram(x, y, **kw)
+            elif w == "ctor_anis":
+                if d == 1 or geo:
+                    raise Inapplicable("needs plain dim > 1")
+                anis = A("anis", [-1.0] + [0.5] * (d - 2))
+                ang = A("angles", self._vals(rs, (cm.n_angles(d),), 0.0, 1.0))
+                ls = A("len_scale", self._vals(rs, (d,), 0.5, 2.0))
+                getattr(gs, self.cfg["model"]["cls"])(dim=d, len_scale=ls, anis=anis, angles=ang)
+            elif w == "set_condition_len":
+                kr = self.objs[rs.choice(["krige", "cond.krige"])]
+                m = kr.cond_no
+                kr.set_condition(cond_pos=A("cond_pos", self._vals(rs, (d, m), -3, 3)),
+                                 cond_val=A("cond_val", self._vals(rs, (m + 1,), 0.5, 3.0)))
+            elif w == "mnt_shape":
+                pos = A("pos", self._vals(rs, (d, n), -3, 3))
+                field = A("field", self._vals(rs, (n + 1,), 0.5, 3.0))
+                from gstools.normalizer import apply_mean_norm_trend, remove_trend_norm_mean
+                fn = rs.choice([apply_mean_norm_trend, remove_trend_norm_mean])
+                fn(pos, field, mean=2.0, trend=cm.make_fn("lin", d),
+                   normalizer=gs.normalizer.YeoJohnson(), check_shape=True)
+            else:
+                raise HarnessError("rejected_call " + w)
+        except refused:
+            self.ctx.probe("rejected_call.refused")
+        else:
+            self.ctx.probe("rejected_call.accepted")
+        finally:
+            if w == "set_condition_len":
+                # leave the shared kriging objects usable for the rest of the history
+                for name in ("krige", "cond.krige"):
+                    try:
+                        self.objs[name].set_condition(self.cond_pos0.copy(), self.cond_val0.copy())
+                    except refused:
+                        pass
 
     def _c_model_funcs(self, op, rs, site):
         m = self.model
